@@ -137,9 +137,11 @@ pub const F_EIO_READ: u32 = 1 << 6; // hard
 pub const F_TRUNC_READ: u32 = 1 << 7; // hard: early EOF
 pub const F_CLOCK_JUMP: u32 = 1 << 8;
 pub const F_THREAD_STALL: u32 = 1 << 9;
-pub const F_HARD: u32 = F_EIO_WRITE | F_ENOSPC_WRITE | F_EIO_READ | F_TRUNC_READ;
+pub const F_BITFLIP_READ: u32 = 1 << 10; // hard: one stored bit reads back flipped (only on `trunc_paths`: checksummed streams)
+pub const F_EOPEN: u32 = 1 << 11; // hard: open() fails (EMFILE / EACCES / EIO / ENOMEM)
+pub const F_HARD: u32 = F_EIO_WRITE | F_ENOSPC_WRITE | F_EIO_READ | F_TRUNC_READ | F_BITFLIP_READ | F_EOPEN;
 
-pub const FAULT_NAMES: [(&str, u32); 10] = [
+pub const FAULT_NAMES: [(&str, u32); 12] = [
     ("short_write", F_SHORT_WRITE),
     ("eintr_write", F_EINTR_WRITE),
     ("short_read", F_SHORT_READ),
@@ -150,6 +152,8 @@ pub const FAULT_NAMES: [(&str, u32); 10] = [
     ("trunc_read", F_TRUNC_READ),
     ("clock_jump", F_CLOCK_JUMP),
     ("thread_stall", F_THREAD_STALL),
+    ("bitflip_read", F_BITFLIP_READ),
+    ("eopen", F_EOPEN),
 ];
 
 #[derive(Clone, Debug, serde::Serialize, serde::Deserialize, PartialEq)]
@@ -1285,13 +1289,50 @@ pub fn hook_open(path: &[u8], flags: i32) -> Option<Result<i32, i32>> {
     if p == "/sim" || p == "/sim/" {
         return Some(Err(libc::EISDIR));
     }
-    if !exists {
-        if flags & libc::O_CREAT == 0 {
-            return Some(Err(libc::ENOENT));
-        }
-        s.files.insert(p.clone(), VFile { data: vec![] });
-    } else if flags & libc::O_CREAT != 0 && flags & libc::O_EXCL != 0 {
+    if !exists && flags & libc::O_CREAT == 0 {
+        return Some(Err(libc::ENOENT));
+    }
+    if exists && flags & libc::O_CREAT != 0 && flags & libc::O_EXCL != 0 {
         return Some(Err(libc::EEXIST));
+    }
+    // faults at open time are decided before the call has any effect on the file system
+    let acc = flags & libc::O_ACCMODE;
+    let mut limit = None;
+    let damage_ok = s.cfg.trunc_paths.is_empty() || s.cfg.trunc_paths.iter().any(|t| p.contains(t.as_str()));
+    let trunc_ok = acc == libc::O_RDONLY && s.fault_enabled(F_TRUNC_READ) && damage_ok;
+    let eopen_ok = s.fault_enabled(F_EOPEN);
+    if (trunc_ok || eopen_ok) && s.hard_faults < s.cfg.max_hard_faults && path_faultable(s, &p) {
+        let len = s.files.get(&p).map_or(0, |f| f.data.len()) as u64;
+        let rate = s.cfg.io_fault_rate;
+        let f = s.dec.fault_at("open", oidx, |r| {
+            if !r.chance(rate) {
+                return None;
+            }
+            let mut kinds: Vec<&'static str> = vec![];
+            if trunc_ok && len > 0 {
+                kinds.push("trunc_read");
+            }
+            if eopen_ok {
+                kinds.push("eopen");
+            }
+            if kinds.is_empty() {
+                return None;
+            }
+            let k = *r.pick(&kinds);
+            Some((k, if k == "trunc_read" { r.below(len) } else { r.below(4) }))
+        });
+        if let Some((k, arg)) = f {
+            s.hard_faults += 1;
+            s.count_fault(&k);
+            if k == "eopen" {
+                s.ev(me, Pt::Open, oidx, u64::MAX);
+                return Some(Err([libc::EMFILE, libc::EACCES, libc::EIO, libc::ENOMEM][(arg % 4) as usize]));
+            }
+            limit = Some(arg as usize);
+        }
+    }
+    if !exists {
+        s.files.insert(p.clone(), VFile { data: vec![] });
     }
     if flags & libc::O_TRUNC != 0 {
         s.files.get_mut(&p).unwrap().data.clear();
@@ -1300,19 +1341,6 @@ pub fn hook_open(path: &[u8], flags: i32) -> Option<Result<i32, i32>> {
     let fd = unsafe { raw_syscall6(libc::SYS_openat, libc::AT_FDCWD as i64, b"/dev/null\0".as_ptr() as i64, (libc::O_RDONLY | libc::O_CLOEXEC) as i64, 0, 0, 0) };
     if fd < 0 {
         return Some(Err((-fd) as i32));
-    }
-    let acc = flags & libc::O_ACCMODE;
-    let mut limit = None;
-    if acc == libc::O_RDONLY && s.fault_enabled(F_TRUNC_READ) && s.hard_faults < s.cfg.max_hard_faults && path_faultable(s, &p) && (s.cfg.trunc_paths.is_empty() || s.cfg.trunc_paths.iter().any(|t| p.contains(t.as_str()))) {
-        let len = s.files[&p].data.len() as u64;
-        let rate = s.cfg.io_fault_rate;
-        if len > 0 {
-            if let Some((_k, arg)) = s.dec.fault_at("open", oidx, |r| if r.chance(rate) { Some(("trunc_read", r.below(len))) } else { None }) {
-                limit = Some(arg as usize);
-                s.hard_faults += 1;
-                s.count_fault("trunc_read");
-            }
-        }
     }
     s.fds.insert(fd as i32, OpenFd { path: p, pos: 0, append: flags & libc::O_APPEND != 0, limit, broken: false });
     s.ev(me, Pt::Open, oidx, fd as u64 * 0);
@@ -1369,10 +1397,12 @@ pub fn hook_read(fd: i32, buf: &mut [u8]) -> Option<Result<usize, i32>> {
     let eff_len = limit.map_or(flen, |l| l.min(flen));
     let avail = eff_len.saturating_sub(pos);
     let mut n = avail.min(buf.len());
+    let mut flip: Option<usize> = None;
     if !s.quiet && n > 0 && path_faultable(s, &path) {
         let mask = s.cfg.faults;
         let rate = s.cfg.io_fault_rate;
         let hard_ok = s.hard_faults < s.cfg.max_hard_faults;
+        let damage_ok = s.cfg.trunc_paths.is_empty() || s.cfg.trunc_paths.iter().any(|t| path.contains(t.as_str()));
         let nn = n as u64;
         let f = s.dec.fault_at("io", idx, |r| {
             if !r.chance(rate) {
@@ -1388,6 +1418,9 @@ pub fn hook_read(fd: i32, buf: &mut [u8]) -> Option<Result<usize, i32>> {
             if mask & F_EIO_READ != 0 && hard_ok {
                 kinds.push("eio_read");
             }
+            if mask & F_BITFLIP_READ != 0 && hard_ok && damage_ok {
+                kinds.push("bitflip_read");
+            }
             if kinds.is_empty() {
                 return None;
             }
@@ -1396,11 +1429,15 @@ pub fn hook_read(fd: i32, buf: &mut [u8]) -> Option<Result<usize, i32>> {
                 if r.chance(0.3) { 1 } else { 1 + r.below(nn - 1) }
             } else if k == "eio_read" {
                 r.below(2) // 1 = sticky: the medium stays unreadable
+            } else if k == "bitflip_read" {
+                r.below(nn * 8)
             } else {
                 0
             };
             Some((k, arg))
         });
+        // (a constructed - not recorded - fault list may name a fault that is not applicable here)
+        let f = f.filter(|(k, _)| k != "bitflip_read" || damage_ok);
         if let Some((k, arg)) = f {
             s.count_fault(&k);
             match k.as_str() {
@@ -1417,6 +1454,10 @@ pub fn hook_read(fd: i32, buf: &mut [u8]) -> Option<Result<usize, i32>> {
                     s.ev(me, Pt::Read, idx, u64::MAX - 1);
                     return Some(Err(libc::EIO));
                 }
+                "bitflip_read" => {
+                    s.hard_faults += 1;
+                    flip = Some((arg as usize) % (n * 8));
+                }
                 _ => {}
             }
         }
@@ -1424,6 +1465,9 @@ pub fn hook_read(fd: i32, buf: &mut [u8]) -> Option<Result<usize, i32>> {
     if n > 0 {
         let data = &s.files[&path].data;
         buf[..n].copy_from_slice(&data[pos..pos + n]);
+        if let Some(bit) = flip {
+            buf[bit / 8] ^= 1 << (bit % 8);
+        }
         s.fds.get_mut(&fd).unwrap().pos = pos + n;
     }
     s.ev(me, Pt::Read, idx, n as u64);
